@@ -54,6 +54,11 @@ def op_under_test(name: str) -> dict:
         return {"kind": "expire", "tag": "ut", "k": 1, "delta": 1, "with_append": True}
     if name == "delete_snapshot":
         return {"kind": "delete_snapshot", "k": 1}
+    if name == "files_append_raw":
+        # a pre-built file written by the user's own writer (no fsync), then registered with append_files()
+        return {"kind": "files_append", "tag": "ut", "n": 2, "raw": True}
+    if name == "files_append_raw_dir":
+        return {"kind": "files_append", "tag": "ut", "n": 2, "raw": True, "dir": "p=1"}
     if name == "gc0":
         return {"kind": "gc", "grace_ms": 0}
     if name == "gc1h":
